@@ -158,6 +158,63 @@ def modelLr (fs : List (String × String)) (ops : List String) : Option (String 
     | .vote _ => "lr:vote" | .tick => "lr:tick" | .change _ => "lr:change" | .bad => "bad-op"
   pure (" | ".intercalate (lrRun s lops [lrRecord s none []]), ",".intercalate tags.eraseDups)
 
+/-! ## kind `pq` -/
+
+def parsePqOp (op : String) : PqOp :=
+  let r : Option PqOp := match op.splitOn ":" with
+    | ["P", is] => do pure (.promote (← natList is))
+    | ["ok", p, t, m] => do pure (.ack (← p.toNat?) (← t.toNat?) (← m.toNat?))
+    | ["fl", d] => do pure (.flushed (← d.toNat?))
+    | ["A"] => some .apply
+    | _ => none
+  r.getD .bad
+
+def pqInit (fs : List (String × String)) : Option PqSt := do
+  let t ← natField fs "t"
+  let log ← natList ((lookup fs "log").getD "-")
+  let nodes ← parseNodes ((lookup fs "nodes").getD "-")
+  pure { leader := initLeader t 0 1 log nodes }
+
+def pqRunAll : PqSt → List PqOp → List String → List String → Option (List String × List String)
+  | _, [], recs, tags => some (recs.reverse, tags.reverse)
+  | s, op :: rest, recs, tags =>
+    match pqStep s op with
+    | none => none
+    | some (s', ev, tag) => pqRunAll s' rest (pqRecord s' ev :: recs) (tag :: tags)
+
+def modelPq (fs : List (String × String)) (ops : List String) : Option (String × String) := do
+  let s ← pqInit fs
+  match pqRunAll s (ops.map parsePqOp) [pqRecord s []] [] with
+  | none => pure ("panic", "panic")
+  | some (recs, tags) => pure (" | ".intercalate recs, ",".intercalate tags.eraseDups)
+
+def parseIdxMap (s : String) : Option IdxMap :=
+  if s == "-" then some [] else
+  (s.splitOn ",").mapM fun kv => match kv.splitOn ":" with
+    | [k, v] => do pure (← k.toNat?, ← v.toNat?)
+    | _ => none
+
+/-- C26 on `pq`: whenever the implementation's commit index moves to `N`, the voters of the
+    configuration *in force* (the model's cache: it changes only when a config entry is applied) that
+    are known to hold `N` (implementation's own match indexes), leader included, must be a strict
+    majority of that configuration; and the implementation's cached voter set must be that configuration. -/
+def monitorPq : PqSt → List PqOp → Nat → List String → Option String
+  | _, [], _, _ => none
+  | _, _ :: _, _, [] => some "missing-record"
+  | s, op :: rest, preCommit, rec :: more =>
+    match pqStep s op with
+    | none => some "unexpected-panic-model"
+    | some (s', _, _) =>
+      match numField rec "c", (bracket rec "m").bind parseIdxMap, (bracket rec "v").bind natList with
+      | some c, some m, some v =>
+        let inForce := voterPeers s'.leader.targets
+        let isApply := match op with | .apply => true | _ => false
+        if !isApply && c > preCommit && !s'.leader.singleVoter &&
+            holders c inForce m * 2 ≤ inForce.length + 1 then some "commit-quorum-of-unapplied-config"
+        else if v.mergeSort (· ≤ ·) != inForce.mergeSort (· ≤ ·) then some "cached-voters-ahead-of-applied-config"
+        else monitorPq s' rest c more
+      | _, _, _ => some "unparsable-output"
+
 /-! ## kind `jn` -/
 
 def parseJnOp (op : String) : JnOp :=
@@ -196,6 +253,7 @@ def modelLine (line : String) : String :=
     | some "rs" => modelRs fs ops
     | some "lr" => modelLr fs ops
     | some "jn" => modelJn fs ops
+    | some "pq" => modelPq fs ops
     | _ => some ("bad-kind", "-")
   match r with
   | some (o, t) => o ++ "\t" ++ t
@@ -213,8 +271,17 @@ def numField (rec : String) (key : String) : Option Nat :=
     if tok.startsWith key then (tok.drop key.length).toString.toNat? else none
 
 /-- C26: in every observed state, no two nodes' own voter sets admit disjoint majorities -/
-def monitorC26 (fs : List (String × String)) (out : String) : String :=
-  if lookup fs "k" != some "cl" then "skip"
+def monitorC26 (fs : List (String × String)) (ops : List String) (out : String) : String :=
+  if lookup fs "k" == some "pq" then
+    match pqInit fs with
+    | none => "bad-case"
+    | some s =>
+      let recs := out.splitOn " | "
+      if recs.length != ops.length + 1 then "bad record-count"
+      else match monitorPq s (ops.map parsePqOp) ((recs.head?.bind fun r => numField r "c").getD 0) (recs.drop 1) with
+        | some sig => "bad " ++ sig
+        | none => "ok"
+  else if lookup fs "k" != some "cl" then "skip"
   else
     let recs := out.splitOn " | "
     let bad := recs.findSome? fun rec =>
@@ -331,7 +398,7 @@ def monitorLine (prop : String) (line : String) : String :=
     let fs := fields head
     -- a panic of the implementation is judged by the correspondence (the model must predict it)
     if out == "panic" then "skip"
-    else if prop == "C26" then monitorC26 fs out
+    else if prop == "C26" then monitorC26 fs ops out
     else if prop == "C27" then monitorC27 fs ops out
     else if prop == "C28" then monitorC28 fs ops out
     else "skip"
